@@ -22,11 +22,38 @@ sys.path.insert(0, os.path.dirname(HERE))
 
 def load_variants():
     from sa.variants import VARIANTS
-    return VARIANTS
+    out = list(VARIANTS)
+    # independently seeded changes (sub-agents): each must keep being reported by the checks recorded in its meta.json
+    sdir = os.path.join(os.path.dirname(HERE), "seeded")
+    if os.path.isdir(sdir):
+        for d in sorted(os.listdir(sdir)):
+            mp = os.path.join(sdir, d, "meta.json")
+            pp = os.path.join(sdir, d, "patch.diff")
+            if not (os.path.exists(mp) and os.path.exists(pp)):
+                continue
+            try:
+                meta = json.load(open(mp))
+            except ValueError:
+                continue
+            expect = {}
+            for pid, keys in (meta.get("caught_by") or {}).items():
+                ks = [k for k in keys if not str(k).startswith("ANALYSIS-ERROR")]
+                if ks:
+                    expect[pid] = ks[0].split("|")[0] + "|"
+            if expect:
+                out.append({"id": "S-" + d, "kind": "breaking", "desc": "seeded: " + (meta.get("summary") or "")[:70], "edits": [],
+                            "patchfile": pp, "expect": expect})
+    return out
 
 
 def apply_variant(v, root):
     """Apply edits in place under root/jsonschema. Returns False if an anchor is missing."""
+    if v.get("patchfile"):
+        import subprocess
+        chk = subprocess.run(["git", "apply", "--check", v["patchfile"]], cwd=root, capture_output=True)
+        if chk.returncode != 0:
+            return False
+        return subprocess.run(["git", "apply", v["patchfile"]], cwd=root, capture_output=True).returncode == 0
     if v.get("transform") == "rename_reorder":
         from sa.transforms import rename_locals, reorder_functions
         pkg = os.path.join(root, "jsonschema")
@@ -87,7 +114,7 @@ def run_variant(args):
         if not apply_variant(v, tmp):
             return {"id": v["id"], "status": "skipped", "reason": "anchor text not in current tree"}
         # must still compile
-        for (rel, _o, _n) in v["edits"]:
+        for (rel, _o, _n) in v.get("edits", []):
             if rel.endswith(".py"):
                 with open(os.path.join(tmp, "jsonschema", rel)) as f:
                     compile(f.read(), rel, "exec")
